@@ -1209,9 +1209,26 @@ class Interp:
 
     def ev_Compare(self, node, st):
         if len(node.ops) != 1:
+            # a < b <= c: the conjunction of the pairwise comparisons, decided pair by pair (each path of the
+            # result carries the facts of the comparisons it went through)
             res = []
             for kind, s, vals in self.ev_list([node.left] + node.comparators, st):
-                res.append((kind, s, Unknown("bool", label=f"cmp:{self.where(s,node)}") if kind == "val" else vals))
+                if kind != "val":
+                    res.append((kind, s, vals))
+                    continue
+                frontier = [s]
+                for i, op in enumerate(node.ops):
+                    nxt = []
+                    for s1 in frontier:
+                        r = self.compare(s1, op, vals[i], vals[i + 1], node)
+                        for s2, t in self.branch(s1, r):
+                            if t:
+                                nxt.append(s2)
+                            else:
+                                res.append(("val", s2, Const(False)))
+                    frontier = nxt
+                for s1 in frontier:
+                    res.append(("val", s1, Const(True)))
             return res
         op = node.ops[0]
         res = []
